@@ -73,6 +73,8 @@ class Ctx:
         self.decisions = []   # human-readable log of decisions
         self.seed = seed
         self._last = None
+        self.lazy = False
+        self.region_ran = False
         self.heavy = True    # decide feasibility with the fresh-solver configuration (faster on DP formulas)
 
     # ------------------------------------------------------------------ assumptions
@@ -112,15 +114,26 @@ class Ctx:
         conds = [c for c in conds if not z3.is_true(c)]
         if any(z3.is_false(c) for c in conds):
             return "unsat"
-        s = z3.Solver()
-        s.set("arith.solver", 2)
-        s.set("random_seed", self.seed % (1 << 30))
-        s.set("timeout", timeout_ms or self.timeout_ms)
-        s.add(*self.base)
-        s.add(*self.pc)
-        s.add(*conds)
+        tmo = timeout_ms or self.timeout_ms
         t0 = time.time()
-        r = str(s.check())
+        r = "unknown"
+        # portfolio: the legacy simplex core is several times faster on the DP encodings but can give up
+        # ("incomplete"); then the default configuration decides
+        for cfg in ({"arith.solver": 2, "auto_config": False}, {}):
+            s = z3.Solver()
+            for k, v in cfg.items():
+                s.set(k, v)
+            s.set("random_seed", self.seed % (1 << 30))
+            left = tmo - int((time.time() - t0) * 1000)
+            if left < 500:
+                break
+            s.set("timeout", left)
+            s.add(*self.base)
+            s.add(*self.pc)
+            s.add(*conds)
+            r = str(s.check())
+            if r in ("sat", "unsat"):
+                break
         dt = time.time() - t0
         st = self.stats
         st.queries += 1
@@ -157,6 +170,12 @@ class Ctx:
             return False
         if self.pos < len(self.trail):
             b = self.trail[self.pos]
+        elif self.lazy and self.region_ran:
+            # after a kernel has been executed the path condition is a large formula: do not spend a solver
+            # call per arm, explore both; an infeasible arm only yields trivially discharged obligations
+            self.pending.append(self.trail[: self.pos] + [False])
+            b = True
+            self.trail.append(b)
         else:
             big = sum(len(str(type(x))) for x in ()) or len(self.base) + len(self.pc) > 0
             chk = self.fresh_sat if self.heavy else self.is_sat
